@@ -138,6 +138,13 @@ def _hint_identity(ctx, m):
         hints.append(re == (1 if i == j else 0))
         if not v.is_real():
             hints.append(im == 0)
+    import z3
+    doms = ctx.__dict__.setdefault('side_hint_domains', [])
+    for v in m.reshape(-1):
+        re, im = v.z3()
+        doms.append(z3.Or(re == 0, re == 1, re == -1))
+        if not v.is_real():
+            doms.append(im == 0)
 
 
 def _hint_values(ctx, vec, vals):
